@@ -1347,6 +1347,10 @@ func (pc *PartitionContext) UpdateAllocation(alloc *objects.Allocation) (request
 		if existingNode != nil {
 			existingNode.UpdateAllocatedResource(delta)
 		}
+		// an allocation that is marked for preemption is tracked as preempting with its current size
+		if existing.IsAllocated() && existing.IsPreempted() {
+			queue.IncPreemptingResource(delta)
+		}
 	}
 
 	// transitioning from requested to allocated
